@@ -103,10 +103,11 @@ CLAIMED = {
               'values, v1 and v2 layouts): every read stays inside the image and every write inside the allocation '
               '(cbmc pointer/bounds checks incl. pointer overflow), and a returned object satisfies the table '
               'invariant (sorted transitions, type index < nty, nty > 0) under which C12 verifies the lookups; lib/tzmap.c: '
-              'tzm_open/tzm_find on well-formed compiled maps with symbolic keys return exactly the mapped zone.'),
+              'tzm_open/tzm_find on well-formed compiled maps with symbolic keys return exactly the mapped zone, and any small '
+              'file with the map magic is refused or looked up inside the image.'),
         note=('open/fstat/mmap/munmap/close stubbed; header counts concrete per query (a symbolic allocation size '
-              'needs 65 GB in cbmc); images <= 98 bytes quick / 128 thorough; zone map compiler and corrupted map files '
-              'not covered; the unchecked loader and a non-terminating map lookup were defects, fixed'),
+              'needs 65 GB in cbmc); images <= 98 bytes quick / 128 thorough; zone map compiler not covered, map images <= 32 / 40 bytes; '
+              'the unchecked loaders and a non-terminating map lookup were defects, fixed'),
         technique='CBMC memory-safety checking of the TZif loader on symbolic file images',
         design='3/C19'),
     'C17': dict(
